@@ -48,3 +48,128 @@ SPECS.append({
  "manifest": {"text": "Relational (two-run) bounded symbolic checking with IEEE-754 boost factors as solver variables; monotonicity and candidate-set invariance are asserted per result and decided by cvc5 on sliced path conditions.",
               "note": "Trusted: executor + intrinsics, z3/cvc5, go/ssa. Bounds: 2-3 commands, 1-2 query words, boosts in [1,1e6]."},
 })
+
+SPECS.append({
+ "property_id": "C04", "level": "model_checking",
+ "explanation": "SearchUniversal (lexical, NLP, typo-fallback paths) is executed symbolically on a database of commands with canonical, aliased, mixed-case, cross-platform and (thorough) symbolic platform tags, with every filter option a solver variable; each result is checked against an eligibility predicate spelled from the property statement (platforms in force, alias table, cross-platform rule, pipeline-only).",
+ "assumptions": ["host platform = linux (runtime.GOOS is a constant of the SSA build)", "--platform values drawn from {none, windows, macos, linux+windows}", "database: 7 fixed commands (+1 with a symbolic 5-letter tag in the thorough tier)"],
+ "stubs": ["regexp ASCII-class stub", "sort.Slice swapper"],
+ "outside_the_claim": ["hosts other than linux", "the cached path (C05)", "platform names outside the documented alias table"],
+ "trusted_base": TB,
+ "harnesses": [
+  H("C04", DB, "Lexical", "both", ["checked", "nonempty"], "all 2^3 flag settings x 4 platform lists x symbolic query word", "lexical path gate"),
+  H("C04", DB, "NLP", "both", ["checked", "nonempty"], "same with UseNLP", "NLP path gate"),
+  H("C04", DB, "Fuzzy", "both", ["checked", "nonempty"], "typo fallback on 'a'+symbolic letter", "fallback gate (platform + pipeline)"),
+  H("C04", DB, "LegacyPipeline", "both", ["checked"], "legacy pipeline search", "pipeline-only gate"),
+  H("C04", DB, "LexicalTag", "thorough", ["checked", "nonempty"], "one command with a symbolic 5-letter mixed-case platform tag", "alias table / case-insensitivity"),
+ ],
+ "manifest": {"text": "Bounded symbolic model checking of the platform / pipeline gate on every search path with all filter options as solver variables and an eligibility oracle spelled from the property.",
+              "note": "Trusted: executor + intrinsics, z3, go/ssa, host fixed to linux. Bounds: 7-8 commands, 4 platform lists."},
+})
+
+SPECS.append({
+ "property_id": "C07", "level": "model_checking",
+ "explanation": "Relational run of SearchUniversal with typo tolerance on / off (identical lists whenever the lexical answer is non-empty); the real third-party matcher (github.com/sahilm/fuzzy, executed from its source) on fully symbolic ASCII pattern and target bytes against a subsequence oracle; the fallback's threshold, order and completeness on databases with long unbroken words.",
+ "assumptions": ["ASCII (< 0x80), NUL-free pattern and target bytes in the matcher harness (NUL is C10's subject; multi-byte folding is outside)", "limit 1..3, threshold any int"],
+ "stubs": ["regexp ASCII-class stub", "sort.Stable runs from SSA", "unicode class intrinsics (exact below 0x80)"],
+ "outside_the_claim": ["patterns longer than 3 / targets longer than 5 symbolic bytes", "non-ASCII case folding"],
+ "trusted_base": TB,
+ "harnesses": [
+  H("C07", DB, "OnlyFallback", "both", ["lexical-answer", "no-lexical-answer"], "7-command database, 1-2 symbolic query words, limit 1..3, threshold any int", "fallback never overrides a lexical answer"),
+  H("C07", DB, "OnlyFallbackNLP", "both", ["lexical-answer", "no-lexical-answer"], "same with UseNLP", "same"),
+  H("C07", DB, "Matcher23", "both", ["matched", "unmatched"], "pattern 1-2, target 0-3 symbolic ASCII bytes", "match <=> in-order occurrence; index sanity"),
+  H("C07", DB, "Matcher35", "thorough", ["matched", "unmatched"], "pattern 1-3, target 0-5 symbolic ASCII bytes", "same"),
+  H("C07", DB, "Fallback3", "thorough", ["fallback", "fallback-nonempty"], "3 commands with long words, 2 symbolic query letters, threshold any int", "genuine matches, threshold, order, completeness"),
+ ],
+ "manifest": {"text": "Bounded symbolic model checking: two-run relation for 'fallback only when nothing matches', and the real fuzzy matcher on symbolic bytes against a subsequence oracle.",
+              "note": "Trusted: executor + intrinsics, z3/cvc5, go/ssa. Bounds: ASCII, pattern<=3, target<=5, databases<=7 commands."},
+})
+
+SPECS.append({
+ "property_id": "C10", "level": "model_checking",
+ "explanation": "Panic-freedom by symbolic execution: every run-time check of Go (index, slice bounds, nil, makeslice size, division, type assertion) on a feasible path is an obligation. Queries and command texts are arbitrary bytes (NUL and invalid UTF-8 included), option integers are arbitrary 64-bit values, float options arbitrary IEEE values; the third-party fuzzy matcher and the utf8 / strings code run from their source. Loading is covered from the decoder outward (missing file, directory, damaged content, well-formed list) with the error classification asserted.",
+ "assumptions": ["yaml.v3 and the RE2 engine are not executed: the decoder either fails or yields the entry list (file-system / decoder model), regexps use the exact ASCII-class stub", "'bounded time' = every loop exits within the executor's instruction budget for inputs within the length bound"],
+ "stubs": ["file-system model, yaml decoder stub", "regexp ASCII-class stub"],
+ "outside_the_claim": ["YAML of arbitrary shape reaching the real decoder", "queries longer than the stated bounds (1000-byte inputs are covered for validation in C14)"],
+ "trusted_base": TB,
+ "harnesses": [
+  H("C10", DB, "FuzzyText2", "both", ["returned"], "command text 'a'+2 arbitrary bytes, typo fallback, 3 queries", "no panic in the fuzzy path", panic_freedom=True),
+  H("C10", DB, "FuzzyText3", "thorough", ["returned"], "3 arbitrary bytes", "same", panic_freedom=True),
+  H("C10", DB, "Suggestions", "both", ["returned"], "command text with 2 arbitrary bytes, max any int", "GetSuggestions", panic_freedom=True),
+  H("C10", DB, "Query2", "both", ["returned"], "query = 2 arbitrary bytes; limit, term cap, threshold any int; pipeline boost any float64", "SearchUniversal total", panic_freedom=True),
+  H("C10", DB, "Query2NLP", "both", ["returned"], "same with UseNLP", "same", panic_freedom=True),
+  H("C10", DB, "Query3", "thorough", ["returned"], "3 arbitrary bytes", "same", panic_freedom=True),
+  H("C10", DB, "Tokenize3", "both", ["returned"], "tokeniser on 3 arbitrary bytes", "tokeniser total, token invariants"),
+  H("C10", DB, "Tokenize4", "thorough", ["returned"], "4 arbitrary bytes", "same"),
+  H("C10", DB, "Legacy", "thorough", ["returned"], "4 legacy entry points, arbitrary option values, 2 arbitrary query bytes", "legacy entry points total", panic_freedom=True),
+  H("C10", "internal/recovery", "RecoveryBytes", "both", ["returned"], "3 arbitrary query bytes, limit any int", "recovery searches total", panic_freedom=True),
+  H("C10", DB, "Load", "both", ["loaded", "not-found", "parse-error", "other-error"], "file missing / directory / damaged / list of 0..2 entries", "LoadDatabase error classification; recovery searches on arbitrary bytes"),
+ ],
+ "manifest": {"text": "Bounded symbolic execution with Go's run-time checks as obligations: arbitrary bytes in queries and command texts, arbitrary integers and floats in options; any feasible panic is returned with a concrete input and replayed natively.",
+              "note": "Trusted: executor + intrinsics, z3, go/ssa; yaml / RE2 are not executed (stubs). Bounds: <=3-4 symbolic bytes per text, <=3 commands."},
+})
+
+SPECS.append({
+ "property_id": "C16", "level": "model_checking",
+ "explanation": "history.SearchHistory is executed symbolically: (1) any file content class (missing, empty, damaged, a document with arbitrary entries and an arbitrary 64-bit max_size) followed by the search command's load / add / save; (2) one AddEntry step from any valid state against a reference log, then a save / load round trip; (3) the recent / top / statistics views against direct recomputation.",
+ "assumptions": ["encoding/json is not executed: MarshalIndent / Unmarshal are an identity round trip through the file-system model (assumed contract); a damaged file yields a decode error", "queries are 1-byte strings (the history only compares them for equality)", "symbolic monotonic clock for timestamps"],
+ "stubs": ["file-system model, json stub", "time.Now symbolic clock", "sort.Slice swapper"],
+ "outside_the_claim": ["JSON fidelity for arbitrary query strings", "logs longer than 3 stored entries (covered by the inductive step)"],
+ "trusted_base": TB,
+ "harnesses": [
+  H("C16", "internal/history", "AnyFile", "both", ["recorded"], "4 file classes; 0..2 stored entries; max_size any int", "recording a search never crashes / never loses the search / respects a sane bound", synctest=True),
+  H("C16", "internal/history", "Step2", "both", ["stepped", "roundtrip"], "max_size 1..2, 0..max stored entries, one AddEntry, save+load", "reference-log step + round trip", synctest=True),
+  H("C16", "internal/history", "Step3", "thorough", ["stepped", "roundtrip"], "max_size 1..3", "same", synctest=True),
+  H("C16", "internal/history", "Views2", "both", ["views"], "0..2 entries, limit 0..n+1", "recent / top / stats agree with the entries", synctest=True),
+  H("C16", "internal/history", "Views3", "thorough", ["views"], "3 entries", "same", synctest=True),
+ ],
+ "manifest": {"text": "Bounded symbolic model checking of the history log: arbitrary file documents (max_size any integer), an inductive AddEntry step against a reference log, persistence round trip, and the derived views.",
+              "note": "Trusted: executor, z3, JSON round-trip identity (stub), symbolic clock. Bounds: <=3 stored entries, 1-byte queries."},
+})
+
+SPECS.append({
+ "property_id": "C09", "level": "model_checking",
+ "explanation": "The crash point is a solver variable: the engine's file-system model lets the next write stop after k bytes (k any non-negative integer) either by returning an error (disk full, quota) or by killing the process; rename is atomic. After the event the live file is loaded through the real loaders and must hold exactly the previous or exactly the new entries; a save that reports success must have taken effect. Counterexamples are replayed natively with RLIMIT_FSIZE cutting the real write.",
+ "assumptions": ["file-system model: a write of n bytes may stop after any k <= n bytes leaving the prefix; os.Rename within a directory is atomic; a torn document does not decode to the old or new content", "yaml / json encoders are opaque documents (round-trip identity)"],
+ "stubs": ["file-system model with write plans", "yaml / json stubs"],
+ "outside_the_claim": ["power loss / fsync durability", "faults on the directory creation or rename steps themselves"],
+ "trusted_base": TB + ["the file-system model (written from POSIX write/rename semantics)"],
+ "harnesses": [
+  H("C09", "internal/history", "HistorySave", "both", ["completed", "interrupted"], "k any int >= 0; event: error or kill", "history update made by every search"),
+  H("C09", "internal/history", "HistoryClear", "both", ["completed", "interrupted"], "same", "Clear"),
+  H("C09", "internal/cli", "Notebook", "both", ["completed", "interrupted"], "same; notebook with 2 entries + 1 new", "saveToPersonalDatabase (both save commands write through it)"),
+ ],
+ "manifest": {"text": "Bounded symbolic fault injection: the byte offset at which a write stops is a solver variable in a file-system model; old-or-new atomicity is asserted through the real loaders and counterexamples are replayed with a real file-size limit.",
+              "note": "Trusted: executor, z3, the file-system model (prefix writes, atomic rename), decoder stubs. The claim is about the code's use of the OS API, not the kernel."},
+})
+
+SPECS.append({
+ "property_id": "C08", "level": "model_checking",
+ "explanation": "Kernel only: the read-modify-write step of saveToPersonalDatabase from an arbitrary notebook (missing, or 0..3 entries with symbolic fields, possibly duplicate command strings) with a symbolic new entry, observed by re-loading the file through the real LoadDatabase: the new entry is stored with exactly its fields, every other entry keeps value and position, an existing command string is replaced in place. YAML fidelity for arbitrary strings and the start-up of the `save` sub-commands (cobra flag registration) are outside the technique.",
+ "assumptions": ["yaml.Marshal / Unmarshal are an identity round trip (assumed; the real encoder is not executed)", "entry fields are 1-letter strings (the save logic only compares the command string for equality)"],
+ "stubs": ["file-system model", "yaml stub"],
+ "outside_the_claim": ["YAML round-trip of arbitrary text (leading '-', ': ', '#', multi-line, invalid UTF-8)", "the `wtf save` / `save-pipeline` processes starting at all (the '-p' shorthand collision panics inside cobra before the handler runs: observed on the real binary, not decidable by this technique)", "merge of main and notebook entries (checked in C15's 'real database' clause)"],
+ "trusted_base": TB,
+ "harnesses": [
+  H("C08", "internal/cli", "Save2", "both", ["saved"], "notebook missing or 0..2 symbolic entries; symbolic new entry", "replace-or-append, neighbours preserved, fields stored exactly"),
+  H("C08", "internal/cli", "Save3", "thorough", ["saved"], "0..3 entries", "same"),
+ ],
+ "manifest": {"text": "Bounded symbolic model checking of the notebook's read-modify-write kernel under an assumed YAML round trip; the process-level parts of the property (cobra start-up, real YAML fidelity) are stated as outside the claim.",
+              "note": "Trusted: executor, z3, YAML round-trip identity (stub). Partial claim: kernel only, see outside_the_claim."},
+})
+
+SPECS.append({
+ "property_id": "C15", "level": "model_checking",
+ "explanation": "LoadDatabaseWithFallback with the real retry loop, classifier, error wrapping and fallback ladder is executed symbolically against the file-system model: the state of the main, personal and backup files (healthy with 0..2 entries, missing, a directory, damaged, permission denied, I/O error for the first t attempts) and the retry configuration are chosen by the solver / bounded forks. The result must be a database and no error, the real entries (main then notebook) whenever they load, a non-empty fallback otherwise, searchable; a missing or unreadable file is read once; waits are bounded and non-decreasing. The attempt count is observed through the stub's read counter and, natively, through a testing/synctest fake clock.",
+ "assumptions": ["file faults are injected at os.ReadFile; yaml decode = error for damaged content, identity for documents", "retry delays: quick tier uses the shipped configuration; the delay harness uses symbolic base / max delays in [1ns, 2^40ns] with factor 2", "math.Pow evaluated natively for the concrete factor"],
+ "stubs": ["file-system model with per-read fault queues", "yaml stub", "time.Sleep advances the symbolic clock"],
+ "outside_the_claim": ["BackoffFactor other than 2.0", "faults other than open/read errors"],
+ "trusted_base": TB,
+ "harnesses": [
+  H("C15", "internal/recovery", "Ladder", "both", ["loaded", "real", "fallback", "tried-once"], "6 main-file states x 4 notebook states x backup present/absent x attempts 1..3 x transient fault length", "usable database, right entries, no futile retries", synctest=True),
+  H("C15", "internal/recovery", "LadderDelays", "thorough", ["loaded"], "symbolic base / max delay", "waits bounded by the maximum and non-decreasing", synctest=True),
+  H("C15", "internal/recovery", "Ladder4", "thorough", ["loaded", "real", "fallback", "tried-once"], "attempts 1..4, 6 notebook states", "same", synctest=True),
+ ],
+ "manifest": {"text": "Bounded symbolic model checking of the loader's retry / fallback ladder over a file-system fault model; fault kinds, transient-fault length and retry configuration are explored exhaustively within the bound, delays symbolically.",
+              "note": "Trusted: executor, z3/cvc5, file-system fault model, decoder stub. Bounds: attempts <= 4, <= 2 entries per file."},
+})
